@@ -28,7 +28,7 @@ func devMain(args []string) int {
 		noview := fs.Bool("noview", false, "")
 		fs.Parse(args[1:])
 		ft, ok := fam.Presets[*feat]
-		if !ok && *feat != "lib" && *feat != "chain" && *feat != "shadow" && *feat != "groups" && *feat != "keys" && *feat != "softnest" && *feat != "reenter" && *feat != "libgroups" && *feat != "groupcycle" && *feat != "deeptree" && *feat != "deepcycle" {
+		if !ok && *feat != "lib" && *feat != "chain" && *feat != "shadow" && *feat != "groups" && *feat != "keys" && *feat != "softnest" && *feat != "reenter" && *feat != "libgroups" && *feat != "groupcycle" && *feat != "deeptree" && *feat != "deepcycle" && *feat != "gaps" && *feat != "decpairs" && *feat != "ifacegroups" {
 			fmt.Println("unknown preset")
 			return 2
 		}
@@ -38,6 +38,12 @@ func devMain(args []string) int {
 			cats = fam.Sample(fam.Chain([]cat.Opts{{Recover: true}}, false), *seed, *n)
 		case "shadow":
 			cats = fam.Sample(fam.Shadow([]cat.Opts{{Recover: true}}, false), *seed, *n)
+		case "ifacegroups":
+			cats = fam.Sample(fam.IfaceGroups([]cat.Opts{{Recover: true}}, false), *seed, *n)
+		case "decpairs":
+			cats = fam.Sample(fam.DecPairs([]cat.Opts{{Recover: true}}, false), *seed, *n)
+		case "gaps":
+			cats = fam.Sample(fam.Gaps([]cat.Opts{{Recover: true}}, false), *seed, *n)
 		case "deepcycle":
 			cats = fam.DeepCycle([]cat.Opts{{Recover: true}, {Recover: true, Defer: true}}, false)
 		case "deeptree":
